@@ -315,7 +315,9 @@ class UserSource:
         return True
 
     def close(self):
-        pass
+        # a duck-typed stream may return anything from close(); the library
+        # must not let it decide whether an exception propagates (seed s102)
+        return True
 
 
 class SeekableSource(UserSource):
@@ -354,7 +356,7 @@ class PlainSeekableSource:
         return self._inner.tell()
 
     def close(self):
-        pass
+        return self._inner.close()
 
     @property
     def nread(self):
